@@ -99,14 +99,17 @@ def src_of(v):
 
 
 def wire(v):
+    """Typed wire format of ocaml/ops_prelude.ml."""
     if isinstance(v, str):
-        return common.hexs(v)
+        return "s:" + common.hexs(v)
     if isinstance(v, int):
-        return str(v)
+        return "i:%d" % v
     if isinstance(v, list):
-        return "L" + ",".join(wire(x) for x in v)
+        if v and isinstance(v[0], str):
+            return "m:" + ",".join(common.hexs(x) for x in v)
+        return "l:" + ",".join(str(x) for x in v)
     if isinstance(v, Fn):
-        return v.name
+        return "f:%d" % v.code
     raise ValueError(v)
 
 
@@ -153,16 +156,16 @@ def impl_show(c):
 
 
 class Fn:
-    def __init__(self, name, src, py):
-        self.name, self.src, self.py = name, src, py
+    def __init__(self, code, src, py):
+        self.code, self.src, self.py = code, src, py
 
 
-MAPF = [Fn("inc", "fun(x: Int) { x + 1 }", lambda x: wrap(x + 1)),
-        Fn("neg", "fun(x: Int) { 0 - x }", lambda x: wrap(0 - x))]
-FILTF = [Fn("pos", "fun(x: Int) { x > 0 }", lambda x: x > 0),
-         Fn("even", "fun(x: Int) { x % 2 == 0 }", lambda x: x % 2 == 0),
-         Fn("all", "fun(_) { True }", lambda x: True),
-         Fn("none", "fun(_) { False }", lambda x: False)]
+MAPF = [Fn(0, "fun(x: Int) { x + 1 }", lambda x: wrap(x + 1)),
+        Fn(1, "fun(x: Int) { 0 - x }", lambda x: wrap(0 - x))]
+FILTF = [Fn(0, "fun(x: Int) { x > 0 }", lambda x: x > 0),
+         Fn(1, "fun(x: Int) { x % 2 == 0 }", lambda x: x % 2 == 0),
+         Fn(2, "fun(_) { True }", lambda x: True),
+         Fn(3, "fun(_) { False }", lambda x: False)]
 
 
 # --------------------------------------------------------------------------
@@ -280,7 +283,7 @@ def spaces(thorough):
                "a b", " a ", " ", "  ", "a  ", "\n", "a\nb", "\t", "a\tb", "a,b", ",a,,b,", "a\"b", "a\\b"]
     hay = ab + special
     needles = ["", "a", "b", "ab", "ba", "aa", "bb", "aba", "abab", "é", "è", "©", "éa", "aé", "€", "😀", " ", "\n", ",",
-               "a b", "\\"]
+               "a b", "\\b"]
     if thorough:
         needles = sorted(set(needles + words("ab", 3)))
         hay = hay + words("aé", 3) + ["€€", "😀😀", "a\r\nb"]
@@ -393,33 +396,75 @@ def risky(fn, args):
     return any(a == "" for a in args if isinstance(a, str))
 
 
-def eval_guarded(ctx, exe, fn, srcs, risk):
-    """Evaluate the sources of one function. A probe (cases with an empty string argument + a regular sample) is
-    run one case per process with a short timeout, so that a non-terminating call costs 5 s; the bulk run follows
-    only when the probe terminated everywhere."""
-    n = len(srcs)
-    res = [None] * n
-    step = max(1, n // 16)
-    probe = [i for i in range(n) if risk[i]][:48]
-    probe += [i for i in range(0, n, step) if i not in probe]
-    pr = oracle.eval_stateless(exe, [srcs[i] for i in probe], timeout=5, chunk=1)
-    for i, r in zip(probe, pr):
-        res[i] = r
-    rest = [i for i in range(n) if res[i] is None]
-    hung = sum(1 for r in pr if r and r["kind"] == "timeout")
-    if hung:
-        ctx.stat("functions with a non-terminating probe")
-        skipped = rest[64:]
-        rest = rest[:64]
-        rr = oracle.eval_stateless(exe, [srcs[i] for i in rest], timeout=5, chunk=1)
-        for i in skipped:
-            res[i] = {"kind": "skipped"}
-        ctx.stat("cases skipped after a timeout in " + fn, len(skipped))
-    else:
-        rr = oracle.eval_stateless(exe, [srcs[i] for i in rest], timeout=60, chunk=100)
-    for i, r in zip(rest, rr):
-        res[i] = r
-    return res
+class Evaluator:
+    """Evaluate (fn, src) cases on the binary: chunks of cases per JSON session with a wall-clock timeout. When a
+    session times out, the first unanswered case is re-run alone with a generous timeout (the machine may be loaded)
+    and only then called non-terminating. After 3 confirmed hangs of one function its remaining cases are skipped
+    (the violation is already established), so a broken tree costs minutes, not hours."""
+
+    def __init__(self, ctx, exe):
+        self.ctx, self.exe = ctx, exe
+        self.hangs = {}
+
+    def session(self, srcs, timeout):
+        resps, err, rc = oracle.run_session_raw(self.exe, [{"method": "run", "input": s} for s in srcs], timeout=timeout)
+        out = []
+        for r, so, se in oracle.group_responses(resps)[:len(srcs)]:
+            out.append(oracle.classify(r))
+        return out, rc, err
+
+    def chunk(self, task):
+        fn, srcs, timeout = task
+        res = [None] * len(srcs)
+        todo = list(range(len(srcs)))
+        while todo:
+            if self.hangs.get(fn, 0) >= 3:
+                for i in todo:
+                    res[i] = {"kind": "skipped"}
+                break
+            out, rc, err = self.session([srcs[i] for i in todo], timeout)
+            for j, c in enumerate(out):
+                res[todo[j]] = c
+            done = len(out)
+            if done >= len(todo):
+                break
+            bad = todo[done]
+            if rc == 124:
+                one, rc1, _ = self.session([srcs[bad]], 40)
+                if one:
+                    res[bad] = one[0]
+                else:
+                    res[bad] = {"kind": "timeout" if rc1 == 124 else "panic", "stderr": ""}
+                    if rc1 == 124:
+                        self.hangs[fn] = self.hangs.get(fn, 0) + 1
+            else:
+                res[bad] = {"kind": "panic", "stderr": err[-300:]}
+            todo = todo[done + 1:]
+        return res
+
+    def run(self, by_fn):
+        """by_fn: fn -> list of (src, risky). Returns fn -> list of results."""
+        import concurrent.futures
+        tasks, where = [], []
+        for fn, items in by_fn.items():
+            risky_ix = [i for i, (s, r) in enumerate(items) if r]
+            plain_ix = [i for i, (s, r) in enumerate(items) if not r]
+            for ix, size, tmo in ((risky_ix, 8, 20), (plain_ix, 100, 60)):
+                for k in range(0, len(ix), size):
+                    part = ix[k:k + size]
+                    tasks.append((fn, [items[i][0] for i in part], tmo))
+                    where.append((fn, part))
+        order = sorted(range(len(tasks)), key=lambda t: tasks[t][2])      # risky chunks first
+        with concurrent.futures.ThreadPoolExecutor(common.NCPU) as ex:
+            results = list(ex.map(lambda t: self.chunk(tasks[t]), order))
+        out = {fn: [None] * len(items) for fn, items in by_fn.items()}
+        for t, res in zip(order, results):
+            fn, part = where[t]
+            for i, r in zip(part, res):
+                out[fn][i] = r
+        for fn, n in self.hangs.items():
+            self.ctx.stat("confirmed non-terminating calls of " + fn, n)
+        return out
 
 
 def run(ctx):
@@ -452,12 +497,13 @@ def run(ctx):
         for (fn, args), l in zip(mc, out):
             model[(fn, tuple(wire(a) for a in args))] = l.split("\t")
     corr_bad, spec_bad = {}, {}
+    srcs_by_fn = {fn: [call_src(fn, a) for a in argl] for fn, argl in by_fn.items()}
+    ev = Evaluator(ctx, exe).run({fn: [(s, risky(fn, a)) for s, a in zip(srcs_by_fn[fn], by_fn[fn])] for fn in by_fn})
     for fn in by_fn:
-        argl = by_fn[fn]
-        srcs = [call_src(fn, a) for a in argl]
-        res = eval_guarded(ctx, exe, fn, srcs, [risky(fn, a) for a in argl])
+        argl, srcs, res = by_fn[fn], srcs_by_fn[fn], ev[fn]
         for args, src, r in zip(argl, srcs, res):
             if r is not None and r.get("kind") == "skipped":
+                ctx.stat("cases skipped after 3 confirmed hangs of the function")
                 continue
             got = impl_show(r)
             w = REF[fn](*args)
